@@ -271,7 +271,13 @@ fn build_records(case: &Value, seed: u64) -> Vec<SpanRecord> {
         let events = (0..ne)
             .map(|k| EventRecord {
                 name: Cow::Owned(string_of(r["name"].as_str().unwrap_or("ascii"), mix(s, 6, k))),
-                timestamp_unix_ns: begin + mix(s, 7, k) % (dur.max(1)),
+                // records are arbitrary: an event may carry a time outside its span's interval (every fourth
+                // one lies before the begin, some after the end)
+                timestamp_unix_ns: match mix(s, 9, k) % 8 {
+                    0 | 4 => begin - 1 - mix(s, 7, k) % 5_000,
+                    1 => begin + dur + 1 + mix(s, 7, k) % 5_000,
+                    _ => begin + mix(s, 7, k) % (dur.max(1)),
+                },
                 properties: (0..(k % 3)).map(|j| (Cow::Owned(format!("ek{j}")), Cow::Owned(string_of("ascii", mix(s, 8, j))))).collect(),
             })
             .collect();
